@@ -2,6 +2,7 @@ import ServlinVerif.Driver.Util
 import ServlinVerif.Model.Request
 import ServlinVerif.Spec.ReadSpec
 import ServlinVerif.Spec.Framing
+import ServlinVerif.Spec.Grammar7230
 /- Driver for the request-reading suites (c01, c02, c03, c14r, c15r): shared parsing / printing. -/
 namespace Servlin
 namespace Drv.Req
@@ -136,6 +137,48 @@ def handleC03 (args : List String) (obs : String) : String :=
         (if obsField obs "cl" == some lenS then [] else ["wrong-length"]) ++
         (if obsField obs "body" == some bodyS then [] else ["wrong-body-kind"])
     model ++ "\t" ++ verdictOf fails
+
+def parseObsHeaders (s : String) : Option (List (Bytes × Bytes)) :=
+  (splitNonEmpty s ",").mapM fun h =>
+    match h.splitOn ":" with
+    | [n, v] => do pure (← hexDecode n, ← hexDecode v)
+    | _ => none
+
+/-- c02: the independent reference classifier (Spec/Grammar7230) vs the implementation. -/
+def handleC02 (args : List String) (obs : String) : String :=
+  match parseCase args, args with
+  | some c, [_, _, _, _, _, _, info] =>
+    let model := modelOutcome c
+    let fails : List String :=
+      match ReadSpec.firstBlankLine (c.all.take c.cap) with
+      | none => ["free"]
+      | some i =>
+        let head := c.all.take i
+        let cand := candidateTarget c.all c.cap
+        let targetOk := fun (t : Bytes) => t == cand && info.startsWith "U:" && t.head? == some 47
+        match Grammar.classify head targetOk with
+        | .free => ["free"]
+        | .reject e =>
+          if obs.startsWith ("err:" ++ e ++ " ") then []
+          else if obs.startsWith "ok " then ["malformed-head-accepted"] else ["wrong-error-class"]
+        | .accept m t fs =>
+          let lower := fun (n : Bytes) => n.map toLower
+          let consumed := [b!"content-type", b!"expect", b!"transfer-encoding"]
+          let special := consumed ++ [b!"content-length", b!"cookie"]
+          let hasSpecial := fs.any fun f => special.contains (lower f.1)
+          if obs.startsWith "err:" then (if hasSpecial then [] else ["wellformed-head-rejected"]) else
+          let expFields := fs.filter fun f => !consumed.contains (lower f.1)
+          (if obsField obs "m" == some (hexEncode m) then [] else ["wrong-method"]) ++
+          (match (obsField obs "h").bind parseObsHeaders with
+           | some hs => if hs == expFields then [] else ["wrong-fields"]
+           | none => ["unparsable-fields"]) ++
+          (match Grammar.classA t with
+           | none => []
+           | some (path, q) =>
+             (if obsField obs "p" == some (hexEncode path) then [] else ["wrong-path"]) ++
+             (if obsField obs "q" == some (match q with | none => "-" | some q => "S" ++ hexEncode q) then [] else ["wrong-query"]))
+    model ++ "\t" ++ (if fails == ["free"] then "free" else verdictOf fails)
+  | _, _ => "bad-case\tFAIL:bad-case"
 
 end Drv.Req
 end Servlin
